@@ -59,6 +59,12 @@ CHECKS.update({
             "§3-C06", "crash = process death on an intact OS/disk; images are in-process copies (a real-kill cross-check is future work); a lower claim after restart is allowed by the statement and only counted"),
 })
 
+CHECKS.update({
+    "C20": (True, "exploration", "stress of the real write queue, bookkeeping locks and agent writers under seeded hook delays; offline checker over the hook event log (exclusivity gauge, priority as happens-before on sequence numbers) + heartbeat-confirmed stall detection",
+            "Runtime monitor: 3-64 requesters on the three write queues (holds, cancellation while queued/holding) run concurrently with local transactions, process_multiple_changes for several actors, buffered applies, generate_sync readers and clears on one real node, with seeded delays at every write-queue/lock/commit hook. The hook log is checked offline: never two live WriteConn values (gauge sampled at each permit, holder intervals disjoint), the first grant after a release never bypasses an eventually-granted higher-priority request whose enqueue completed before that release, all tasks complete; 30 s without progress under a live supervising task with blocked lock-registry entries is reported as a deadlock.",
+            "§3-C20", "sampled interleavings; priority judged at release points only; the lock-order-graph directed scheduling of DESIGN §3-C20 is not built"),
+})
+
 NOT_YET = {
 }
 
